@@ -20,13 +20,20 @@ def rgbaOf (c : RGBA) : image_color_RGBA := ⟨c.r, c.g, c.b, c.a⟩
 /-- the model colour of a Go `color.RGBA` value -/
 def rgbaTo (c : image_color_RGBA) : RGBA := ⟨c.R, c.G, c.B, c.A⟩
 
+tolerant
 @[simp] theorem rgbaTo_rgbaOf (c : RGBA) : rgbaTo (rgbaOf c) = c := rfl
+tolerant
 @[simp] theorem rgbaOf_rgbaTo (c : image_color_RGBA) : rgbaOf (rgbaTo c) = c := rfl
+tolerant
 theorem rgbaOf_inj {a b : RGBA} : rgbaOf a = rgbaOf b ↔ a = b :=
   ⟨fun h => by simpa using congrArg rgbaTo h, fun h => h ▸ rfl⟩
+tolerant
 @[simp] theorem rgbaOf_R (c : RGBA) : (rgbaOf c).R = c.r := rfl
+tolerant
 @[simp] theorem rgbaOf_G (c : RGBA) : (rgbaOf c).G = c.g := rfl
+tolerant
 @[simp] theorem rgbaOf_B (c : RGBA) : (rgbaOf c).B = c.b := rfl
+tolerant
 @[simp] theorem rgbaOf_A (c : RGBA) : (rgbaOf c).A = c.a := rfl
 
 /-- color.go: `ColorTypeRGBA … ColorTypeBlend = iota` -/
@@ -38,7 +45,9 @@ def typTo? (t : UInt8) : Option ColorType :=
   if t = 0 then some .rgba else if t = 1 then some .paletteIndex else if t = 2 then some .cReg
   else if t = 3 then some .blend else none
 
+tolerant
 @[simp] theorem typTo?_typOf (t : ColorType) : typTo? (typOf t) = some t := by cases t <;> rfl
+tolerant
 theorem typOf_inj {a b : ColorType} : typOf a = typOf b ↔ a = b := by
   cases a <;> cases b <;> decide
 
@@ -47,11 +56,15 @@ def colorOf (c : Color) : ivg_Color := ⟨typOf c.typ, rgbaOf c.data⟩
 /-- the model Color of a Go `ivg.Color` value whose type tag is one of the four declared ones -/
 def colorTo? (c : ivg_Color) : Option Color := (typTo? c.typ).map fun t => ⟨t, rgbaTo c.data⟩
 
+tolerant
 @[simp] theorem colorTo?_colorOf (c : Color) : colorTo? (colorOf c) = some c := by
   simp [colorTo?, colorOf]
+tolerant
 theorem colorOf_inj {a b : Color} : colorOf a = colorOf b ↔ a = b :=
   ⟨fun h => by simpa using congrArg colorTo? h, fun h => h ▸ rfl⟩
+tolerant
 @[simp] theorem colorOf_typ (c : Color) : (colorOf c).typ = typOf c.typ := rfl
+tolerant
 @[simp] theorem colorOf_data (c : Color) : (colorOf c).data = rgbaOf c.data := rfl
 
 /-- Go `[64]color.RGBA` of a model palette / colour register file -/
@@ -59,12 +72,16 @@ def palOf (p : Palette) : Vector image_color_RGBA 64 := p.map rgbaOf
 /-- model palette of a Go `[64]color.RGBA` -/
 def palTo (p : Vector image_color_RGBA 64) : Palette := p.map rgbaTo
 
+tolerant
 @[simp] theorem palTo_palOf (p : Palette) : palTo (palOf p) = p := by
   ext i hi <;> simp [palTo, palOf]
+tolerant
 @[simp] theorem palOf_palTo (p : Vector image_color_RGBA 64) : palOf (palTo p) = p := by
   ext i hi <;> simp [palTo, palOf]
+tolerant
 theorem palOf_inj {a b : Palette} : palOf a = palOf b ↔ a = b :=
   ⟨fun h => by simpa using congrArg palTo h, fun h => h ▸ rfl⟩
+tolerant
 theorem palOf_getElem (p : Palette) (i : Nat) (h : i < 64) : (palOf p)[i] = rgbaOf p[i] := by
   simp [palOf]
 
@@ -80,25 +97,31 @@ def enc4Of : Option (UInt8 × UInt8 × UInt8 × UInt8) → Vector UInt8 4 × Boo
 
 /-! ## constructors -/
 
+tolerant
 /-- color.go `RGBAColor` -/
 theorem rGBAColor_code_tie (c : RGBA) : ivg_RGBAColor (rgbaOf c) = colorOf (Color.rgbaColor c) := rfl
 
+tolerant
 /-- color.go `PaletteIndexColor` -/
 theorem paletteIndexColor_code_tie (i : UInt8) :
     ivg_PaletteIndexColor i = colorOf (Color.paletteIndexColor i) := rfl
 
+tolerant
 /-- color.go `CRegColor` -/
 theorem cRegColor_code_tie (i : UInt8) : ivg_CRegColor i = colorOf (Color.cRegColor i) := rfl
 
+tolerant
 /-- color.go `BlendColor` -/
 theorem blendColor_code_tie (t c0 c1 : UInt8) :
     ivg_BlendColor t c0 c1 = colorOf (Color.blendColor t c0 c1) := rfl
 
 set_option maxRecDepth 100000 in
+tolerant
 private theorem decodeColor1_all :
     ∀ n, n < 256 → ivg_DecodeColor1 (UInt8.ofNat n) = colorOf (decodeColor1 (UInt8.ofNat n)) := by
   decide +kernel
 
+tolerant
 /-- color.go `DecodeColor1`, all 256 bytes -/
 theorem decodeColor1_code_tie (x : UInt8) : ivg_DecodeColor1 x = colorOf (decodeColor1 x) := by
   have h := decodeColor1_all x.toNat x.toNat_lt
@@ -106,41 +129,50 @@ theorem decodeColor1_code_tie (x : UInt8) : ivg_DecodeColor1 x = colorOf (decode
 
 /-! ## predicates on `color.RGBA` -/
 
+tolerant
 theorem u8_beq_decide (a b : UInt8) : (a == b) = decide (a = b) := by
   cases h : (a == b) <;> simp_all
+tolerant
 theorem u8_bne_decide (a b : UInt8) : (a != b) = decide (a ≠ b) := by
   simp [bne, u8_beq_decide]
 
+tolerant
 /-- color.go `Is1`'s closure `is1` -/
 theorem is1_1_code_tie (u : UInt8) : ivg_Is1_1 u = is1u u := by
   simp only [ivg_Is1_1, is1u, u8_beq_decide]
   split <;> simp_all
 
+tolerant
 /-- color.go `Is2`'s closure `is2` -/
 theorem is2_1_code_tie (u : UInt8) : ivg_Is2_1 u = is2u u := by
   simp [ivg_Is2_1, is2u, u8_beq_decide]
 
+tolerant
 /-- color.go `Is1` -/
 theorem is1_code_tie (c : RGBA) : ivg_Is1 (rgbaOf c) = c.is1 := by
   simp only [ivg_Is1, RGBA.is1, is1_1_code_tie, rgbaOf_R, rgbaOf_G, rgbaOf_B, rgbaOf_A]
   cases is1u c.r <;> cases is1u c.g <;> cases is1u c.b <;> simp
 
+tolerant
 /-- color.go `Is2` -/
 theorem is2_code_tie (c : RGBA) : ivg_Is2 (rgbaOf c) = c.is2 := by
   simp only [ivg_Is2, RGBA.is2, is2_1_code_tie, rgbaOf_R, rgbaOf_G, rgbaOf_B, rgbaOf_A]
   cases is2u c.r <;> cases is2u c.g <;> cases is2u c.b <;> simp
 
+tolerant
 /-- color.go `Is3` -/
 theorem is3_code_tie (c : RGBA) : ivg_Is3 (rgbaOf c) = c.is3 := by
   simp only [ivg_Is3, RGBA.is3, u8_beq_decide, rgbaOf_A]
   congr
 
+tolerant
 /-- color.go `ValidAlphaPremulColor` -/
 theorem validAlphaPremulColor_code_tie (c : RGBA) : ivg_ValidAlphaPremulColor (rgbaOf c) = c.validPremul := by
   simp only [ivg_ValidAlphaPremulColor, RGBA.validPremul, rgbaOf_R, rgbaOf_G, rgbaOf_B, rgbaOf_A]
   by_cases h1 : c.r ≤ c.a <;> by_cases h2 : c.g ≤ c.a <;> simp [h1, h2]
   congr
 
+tolerant
 /-- color.go `ValidGradient` -/
 theorem validGradient_code_tie (c : RGBA) : ivg_ValidGradient (rgbaOf c) = c.validGradient := by
   simp only [ivg_ValidGradient, RGBA.validGradient, rgbaOf_B, rgbaOf_A]
@@ -149,10 +181,12 @@ theorem validGradient_code_tie (c : RGBA) : ivg_ValidGradient (rgbaOf c) = c.val
 
 /-! ## gradient parameters -/
 
+tolerant
 /-- color.go `EncodeGradient` -/
 theorem encodeGradient_code_tie (cBase nBase shape spread nStops : UInt8) :
     ivg_EncodeGradient cBase nBase shape spread nStops = rgbaOf (encodeGradient cBase nBase shape spread nStops) := rfl
 
+tolerant
 /-- color.go `DecodeGradient`; the model returns the five results as a structure -/
 theorem decodeGradient_code_tie (c : RGBA) :
     ivg_DecodeGradient (rgbaOf c) =
@@ -161,24 +195,28 @@ theorem decodeGradient_code_tie (c : RGBA) :
 
 /-! ## methods of `Color` -/
 
+tolerant
 /-- color.go `Color.Is1` (the model inlines it as `c.typ = .rgba ∧ c.data.is1`) -/
 theorem color_Is1_code_tie (c : Color) : ivg_Color_Is1 (colorOf c) = (decide (c.typ = .rgba) && c.data.is1) := by
   obtain ⟨t, d⟩ := c
   simp only [ivg_Color_Is1, colorOf_typ, colorOf_data, is1_code_tie]
   cases t <;> simp [typOf]
 
+tolerant
 /-- color.go `Color.Is2` -/
 theorem color_Is2_code_tie (c : Color) : ivg_Color_Is2 (colorOf c) = (decide (c.typ = .rgba) && c.data.is2) := by
   obtain ⟨t, d⟩ := c
   simp only [ivg_Color_Is2, colorOf_typ, colorOf_data, is2_code_tie]
   cases t <;> simp [typOf]
 
+tolerant
 /-- color.go `Color.Is3` -/
 theorem color_Is3_code_tie (c : Color) : ivg_Color_Is3 (colorOf c) = (decide (c.typ = .rgba) && c.data.is3) := by
   obtain ⟨t, d⟩ := c
   simp only [ivg_Color_Is3, colorOf_typ, colorOf_data, is3_code_tie]
   cases t <;> simp [typOf]
 
+tolerant
 /-- color.go `Color.RGBA` -/
 theorem color_RGBA_code_tie (c : Color) :
     ivg_Color_RGBA (colorOf c) = (rgbaOf c.toRGBA.1, c.toRGBA.2) := by
@@ -186,6 +224,7 @@ theorem color_RGBA_code_tie (c : Color) :
   simp only [ivg_Color_RGBA, Color.toRGBA, colorOf_typ, colorOf_data, validAlphaPremulColor_code_tie]
   cases t <;> cases d.validPremul <;> simp [typOf, rgbaOf, RGBA.black]
 
+tolerant
 /-- color.go `Color.Encode1`; `(0, false)` for the model's `none` -/
 theorem color_Encode1_code_tie (c : Color) : ivg_Color_Encode1 (colorOf c) = enc1Of c.encode1 := by
   obtain ⟨t, ⟨r, g, b, a⟩⟩ := c
@@ -205,6 +244,7 @@ theorem color_Encode1_code_tie (c : Color) : ivg_Color_Encode1 (colorOf c) = enc
         · by_cases h2 : r = 192 ∧ g = 192 ∧ b = 192 ∧ a = 192 <;> simp [h0, h1, h2, enc1Of]
   all_goals simp [ivg_Color_Encode1, Color.encode1, colorOf, typOf, rgbaOf, enc1Of]
 
+tolerant
 /-- color.go `Color.Encode2`; the zero array and `false` for the model's `none` -/
 theorem color_Encode2_code_tie (c : Color) : ivg_Color_Encode2 (colorOf c) = enc2Of c.encode2 := by
   simp only [ivg_Color_Encode2, Color.encode2, color_Is2_code_tie, colorOf_data, rgbaOf_R, rgbaOf_G, rgbaOf_B,
@@ -212,6 +252,7 @@ theorem color_Encode2_code_tie (c : Color) : ivg_Color_Encode2 (colorOf c) = enc
   obtain ⟨t, d⟩ := c
   cases t <;> cases d.is2 <;> simp [enc2Of]
 
+tolerant
 /-- color.go `Color.Encode3Direct` -/
 theorem color_Encode3Direct_code_tie (c : Color) :
     ivg_Color_Encode3Direct (colorOf c) = enc3Of c.encode3Direct := by
@@ -220,12 +261,14 @@ theorem color_Encode3Direct_code_tie (c : Color) :
   obtain ⟨t, d⟩ := c
   cases t <;> cases d.is3 <;> simp [enc3Of]
 
+tolerant
 /-- color.go `Color.Encode4` -/
 theorem color_Encode4_code_tie (c : Color) : ivg_Color_Encode4 (colorOf c) = enc4Of c.encode4 := by
   simp only [ivg_Color_Encode4, Color.encode4, colorOf_typ, colorOf_data, rgbaOf_R, rgbaOf_G, rgbaOf_B, rgbaOf_A]
   obtain ⟨t, d⟩ := c
   cases t <;> simp [enc4Of, typOf]
 
+tolerant
 /-- color.go `Color.Encode3Indirect` -/
 theorem color_Encode3Indirect_code_tie (c : Color) :
     ivg_Color_Encode3Indirect (colorOf c) = enc3Of c.encode3Indirect := by
@@ -236,44 +279,57 @@ theorem color_Encode3Indirect_code_tie (c : Color) :
 
 /-! ## unexported accessors (the model reads the fields of `c.data` directly) -/
 
+tolerant
 /-- color.go `Color.rgba` -/
 theorem color_rgba_code_tie (c : Color) : ivg_Color_rgba (colorOf c) = rgbaOf c.data := rfl
+tolerant
 /-- color.go `Color.paletteIndex` -/
 theorem color_paletteIndex_code_tie (c : Color) : ivg_Color_paletteIndex (colorOf c) = c.data.r := rfl
+tolerant
 /-- color.go `Color.cReg` -/
 theorem color_cReg_code_tie (c : Color) : ivg_Color_cReg (colorOf c) = c.data.r := rfl
+tolerant
 /-- color.go `Color.blend` -/
 theorem color_blend_code_tie (c : Color) : ivg_Color_blend (colorOf c) = (c.data.r, c.data.g, c.data.b) := rfl
 
 /-! ## outside the image of `colorOf`: a type tag `> 3` (no Go code constructs one; `typ` is unexported).
 The Go methods then behave as follows (`Encode1`, `Encode3Indirect` … answer `false`; so does `RGBA`). -/
 
+tolerant
 theorem color_Is1_code_tie_badTyp (c : ivg_Color) (h : 3 < c.typ) : ivg_Color_Is1 c = false := by
   have : c.typ ≠ 0 := by intro e; rw [e] at h; exact absurd h (by decide)
   simp [ivg_Color_Is1, this]
+tolerant
 theorem color_Is2_code_tie_badTyp (c : ivg_Color) (h : 3 < c.typ) : ivg_Color_Is2 c = false := by
   have : c.typ ≠ 0 := by intro e; rw [e] at h; exact absurd h (by decide)
   simp [ivg_Color_Is2, this]
+tolerant
 theorem color_Is3_code_tie_badTyp (c : ivg_Color) (h : 3 < c.typ) : ivg_Color_Is3 c = false := by
   have : c.typ ≠ 0 := by intro e; rw [e] at h; exact absurd h (by decide)
   simp [ivg_Color_Is3, this]
+tolerant
 theorem color_RGBA_code_tie_badTyp (c : ivg_Color) (h : 3 < c.typ) :
     ivg_Color_RGBA c = (rgbaOf RGBA.black, false) := by
   have : c.typ ≠ 0 := by intro e; rw [e] at h; exact absurd h (by decide)
   simp [ivg_Color_RGBA, this, rgbaOf, RGBA.black]
+tolerant
 theorem color_Encode1_code_tie_badTyp (c : ivg_Color) (h : 3 < c.typ) : ivg_Color_Encode1 c = enc1Of none := by
   have h0 : c.typ ≠ 0 := by intro e; rw [e] at h; exact absurd h (by decide)
   have h1 : c.typ ≠ 1 := by intro e; rw [e] at h; exact absurd h (by decide)
   have h2 : c.typ ≠ 2 := by intro e; rw [e] at h; exact absurd h (by decide)
   simp [ivg_Color_Encode1, h0, h1, h2, enc1Of]
+tolerant
 theorem color_Encode2_code_tie_badTyp (c : ivg_Color) (h : 3 < c.typ) : ivg_Color_Encode2 c = enc2Of none := by
   simp [ivg_Color_Encode2, color_Is2_code_tie_badTyp c h, enc2Of]
+tolerant
 theorem color_Encode3Direct_code_tie_badTyp (c : ivg_Color) (h : 3 < c.typ) :
     ivg_Color_Encode3Direct c = enc3Of none := by
   simp [ivg_Color_Encode3Direct, color_Is3_code_tie_badTyp c h, enc3Of]
+tolerant
 theorem color_Encode4_code_tie_badTyp (c : ivg_Color) (h : 3 < c.typ) : ivg_Color_Encode4 c = enc4Of none := by
   have : c.typ ≠ 0 := by intro e; rw [e] at h; exact absurd h (by decide)
   simp [ivg_Color_Encode4, this, enc4Of]
+tolerant
 theorem color_Encode3Indirect_code_tie_badTyp (c : ivg_Color) (h : 3 < c.typ) :
     ivg_Color_Encode3Indirect c = enc3Of none := by
   have : c.typ ≠ 3 := by intro e; rw [e] at h; exact absurd h (by decide)
@@ -281,6 +337,7 @@ theorem color_Encode3Indirect_code_tie_badTyp (c : ivg_Color) (h : 3 < c.typ) :
 
 example : (3 : UInt8) < (⟨7, ⟨1, 2, 3, 4⟩⟩ : ivg_Color).typ := by decide
 
+tolerant
 /-- every Go `Color` is `colorOf` of a model Color or has a type tag `> 3` -/
 theorem colorOf_or_badTyp (c : ivg_Color) : (∃ m, c = colorOf m) ∨ 3 < c.typ := by
   obtain ⟨t, d⟩ := c
@@ -304,18 +361,22 @@ theorem colorOf_or_badTyp (c : ivg_Color) : (∃ m, c = colorOf m) ∨ 3 < c.typ
 
 /-! ## package-level variables of package ivg -/
 
+tolerant
 /-- color.go `dc1Table` -/
 theorem dc1Table_code_tie (i : Nat) (h : i < 5) : Go.arrGet G_ivg_dc1Table i = dc1Table i := by
   match i, h with
   | 0, _ | 1, _ | 2, _ | 3, _ | 4, _ => rfl
 
+tolerant
 /-- ivg.go `DefaultViewBox` -/
 theorem defaultViewBox_code_tie : G_ivg_DefaultViewBox = vbOf defaultViewBox := rfl
 
+tolerant
 /-- ivg.go `DefaultPalette` -/
 theorem defaultPalette_code_tie : G_ivg_DefaultPalette = palOf defaultPalette := by
   decide +kernel
 
+tolerant
 /-- ivg.go `DefaultMetadata` (the model's `Metadata` structure has these two as its field defaults) -/
 theorem defaultMetadata_code_tie : G_ivg_DefaultMetadata = ⟨vbOf defaultViewBox, palOf defaultPalette⟩ := by
   decide +kernel
